@@ -28,7 +28,7 @@ for p in props:
         na.append({"property_id": pid, "reason": meta["not_yet"].get(pid, "check not built yet in this round; no claim is made")})
 manifest = {
     "version": 1,
-    "setup_cmd": "/venv/bin/python tools/gen_consts.py && cd lean && lake build TT ttdriver TT.Props.All",
+    "setup_cmd": "sh tools/setup.sh",
     "hooks": {"guard": "VERIF_TREETOOLS", "enable": "no hooks: all observation is through public functions, files and the command line",
               "baseline_off_cmd": "cd /repo && /venv/bin/python -m pytest -q -p no:cacheprovider",
               "source_commits": [], "add_only": True},
